@@ -115,7 +115,7 @@ def work(shard, tier):
     for name in shard['modules']:
         mod = mods[name]
         rng = C.rng_for('C01', name)
-        nums = C.corpus(name, limit=4 if tier == 'quick' else 25, rng=rng)
+        nums = C.rich_corpus(name, 4 if tier == 'quick' else 25, rng, n_synth=2 if tier == 'quick' else 10, n_const=2 if tier == 'quick' else 10)
         if not nums:
             continue
         modules_reached.append(name)
